@@ -23,6 +23,9 @@ pub struct FontFile {
     pub dw: Option<f64>,
     /// simple font: FirstChar and Widths
     pub simple: Option<(i64, Vec<f64>)>,
+    /// /MissingWidth of the font descriptor (simple fonts; absent = 0)
+    #[serde(default)]
+    pub missing_width: Option<f64>,
     /// ToUnicode stream text
     pub cmap: Option<Bytes>,
     /// expected widths for the probed codes
@@ -51,6 +54,13 @@ fn build_file(f: &FontFile) -> Vec<u8> {
         ("Descent", Val::Int(-200)),
         ("StemV", Val::Int(80)),
     ]);
+    let fd = match (fd, f.missing_width) {
+        (Val::Dict(mut d), Some(m)) => {
+            d.push((Bytes::from("MissingWidth"), num(m)));
+            Val::Dict(d)
+        }
+        (fd, _) => fd,
+    };
     w.obj(12, 0, &fd);
     if let Some((first, widths)) = &f.simple {
         let mut d = vec![("Type", name("Font")), ("Subtype", name("TrueType")), ("BaseFont", name("Test")), ("FirstChar", Val::Int(*first)), ("LastChar", Val::Int(*first + widths.len() as i64 - 1)), ("Widths", Val::Array(widths.iter().map(|x| num(*x)).collect())), ("FontDescriptor", Val::Ref(12, 0))];
@@ -257,7 +267,7 @@ pub fn render_w(c: &WCase) -> FontFile {
     let width_probes = codes.into_iter().map(|c| (c, model.get(&c).copied().unwrap_or(default))).collect();
     labels.sort();
     labels.dedup();
-    FontFile { w: Some(Val::Array(w)), w_sub_indirect: subs, dw, simple: None, cmap: None, width_probes, unicode: None, labels }
+    FontFile { w: Some(Val::Array(w)), w_sub_indirect: subs, dw, simple: None, missing_width: None, cmap: None, width_probes, unicode: None, labels }
 }
 
 fn wval(x: u16, real: bool) -> f64 {
@@ -431,8 +441,12 @@ pub fn run(ctx: &Ctx) {
     ctx.run_cases(
         "simple-font-widths",
         scases,
-        || (0i64..=255, proptest::collection::vec(0u16..2000, 0..=256), proptest::collection::vec(any::<u16>(), 0..6)),
-        |(first, widths, probes), info| {
+        || (0i64..=255, proptest::collection::vec(0u16..2000, 0..=256), proptest::collection::vec(any::<u16>(), 0..6), proptest::option::weighted(0.6, 0u16..1500)),
+        |(first, widths, probes, missing), info| {
+            let missing_width = missing.map(|m| m as f64 / 2.0);
+            if missing_width.is_some() {
+                info.label("descriptor/MissingWidth");
+            }
             let n = widths.len().min((256 - *first) as usize);
             let ws: Vec<f64> = widths[..n].iter().map(|w| *w as f64).collect();
             if ws.is_empty() {
@@ -446,10 +460,10 @@ pub fn run(ctx: &Ctx) {
                 .into_iter()
                 .map(|c| {
                     let inside = c as i64 >= *first && ((c as i64 - *first) as usize) < ws.len();
-                    (c, if inside { ws[(c as i64 - *first) as usize] } else { 0.0 })
+                    (c, if inside { ws[(c as i64 - *first) as usize] } else { missing_width.unwrap_or(0.0) })
                 })
                 .collect();
-            let f = FontFile { w: None, w_sub_indirect: vec![], dw: None, simple: Some((*first, ws)), cmap: None, width_probes, unicode: None, labels: vec![] };
+            let f = FontFile { w: None, w_sub_indirect: vec![], dw: None, simple: Some((*first, ws)), missing_width, cmap: None, width_probes, unicode: None, labels: vec![] };
             info.nontrivial(n > 0);
             info.distinct((first, widths));
             check(&f)
@@ -474,7 +488,7 @@ pub fn run(ctx: &Ctx) {
         info.nontrivial(has_run);
         info.distinct(&text);
         info.sample = Some(json!({"entries": m.len(), "written": text.chars().take(300).collect::<String>()}));
-        let f = FontFile { w: None, w_sub_indirect: vec![], dw: None, simple: None, cmap: Some(Bytes(text.into_bytes())), width_probes: vec![], unicode: Some(m.into_iter().collect()), labels: vec![] };
+        let f = FontFile { w: None, w_sub_indirect: vec![], dw: None, simple: None, missing_width: None, cmap: Some(Bytes(text.into_bytes())), width_probes: vec![], unicode: Some(m.into_iter().collect()), labels: vec![] };
         check(&f)
     });
     ctx.run_cases(
@@ -496,10 +510,10 @@ pub fn run(ctx: &Ctx) {
             info.nontrivial(labels.iter().any(|l| l.starts_with("bfrange")));
             info.distinct(&text);
             info.sample = Some(json!({"entries": m.len(), "text_tail": String::from_utf8_lossy(&text[text.len().saturating_sub(300)..])}));
-            let f = FontFile { w: None, w_sub_indirect: vec![], dw: None, simple: None, cmap: Some(Bytes(text)), width_probes: vec![], unicode: Some(m.into_iter().collect()), labels };
+            let f = FontFile { w: None, w_sub_indirect: vec![], dw: None, simple: None, missing_width: None, cmap: Some(Bytes(text)), width_probes: vec![], unicode: Some(m.into_iter().collect()), labels };
             check(&f)
         },
     );
 }
 
-pub const RULE: &str = "cases = (a) composite fonts whose /W array has 0-13 groups over disjoint code ranges in 0..65535 written in any order, in both forms (c [w...] incl. an indirect array, c1 c2 w), with or without /DW; queried at every range boundary +-1, 0, 65535 and random codes; (b) simple fonts with FirstChar 0-255 and 0-256 widths; (c) maps u16 -> non-empty strings (BMP, supplementary planes, multi-character, runs of consecutive codes) written by write_cmap and read back; (d) independent conformant CMap texts (boilerplate, codespace ranges, bfchar, both bfrange forms incl. one-code ranges and increment runs ending in byte 0xFF, 1- and 2-byte codes, blocks <= 100); all read through a font object in a file written by the harness; oracle = model map / model widths; non-trivial = >=3 groups not in ascending order, a map with a run of consecutive codes, a text with a bfrange; distinct by array / text";
+pub const RULE: &str = "cases = (a) composite fonts whose /W array has 0-13 groups over disjoint code ranges in 0..65535 written in any order, in both forms (c [w...] incl. an indirect array, c1 c2 w), with or without /DW; queried at every range boundary +-1, 0, 65535 and random codes; (b) simple fonts with FirstChar 0-255, 0-256 widths and, in 60% of the cases, a /MissingWidth in the font descriptor (the width of every code outside the table); (c) maps u16 -> non-empty strings (BMP, supplementary planes, multi-character, runs of consecutive codes) written by write_cmap and read back; (d) independent conformant CMap texts (boilerplate, codespace ranges, bfchar, both bfrange forms incl. one-code ranges and increment runs ending in byte 0xFF, 1- and 2-byte codes, blocks <= 100); all read through a font object in a file written by the harness; oracle = model map / model widths; non-trivial = >=3 groups not in ascending order, a map with a run of consecutive codes, a text with a bfrange; distinct by array / text";
